@@ -104,7 +104,10 @@ func (b *Base128Encoder) Encode(src []byte) []byte {
 		whichByte++
 	}
 
-	dst = append(dst, bufByte)
+	if whichByte != 1 {
+		// bits are still pending; after a multiple of 7 bytes there are none
+		dst = append(dst, bufByte)
+	}
 	dst = escape128(dst)
 	return dst
 }
